@@ -351,7 +351,7 @@ func compileLambda(e b6.Expression, c *compilation) (*lambdaCall, error) {
 
 func compileLiteral(e b6.Expression, c *compilation) error {
 	l := e.AnyExpression.(b6.AnyLiteral)
-	c.Append(Instruction{Op: OpPushValue, Value: reflect.ValueOf(l.Literal()), Expression: e})
+	c.Append(Instruction{Op: OpPushValue, Value: ValueOf(l.Literal()), Expression: e})
 	return nil
 }
 
@@ -430,7 +430,10 @@ func (v *VM) Execute(context *Context) (interface{}, error) {
 	if err := v.execute(context); err != nil {
 		return nil, err
 	}
-	result := v.Stack[len(v.Stack)-1].Value.Interface()
+	var result interface{}
+	if top := v.Stack[len(v.Stack)-1].Value; top.IsValid() {
+		result = top.Interface()
+	}
 	v.Stack = v.Stack[0 : len(v.Stack)-1]
 	return result, nil
 }
@@ -514,7 +517,9 @@ func (v *VM) CallWithArgsAndExpressions(context *Context, c Callable, args []Sta
 	_, err := c.CallFromStack(context, len(args), scratch[0:])
 	var result interface{}
 	if err == nil {
-		result = v.Stack[len(v.Stack)-1].Value.Interface()
+		if top := v.Stack[len(v.Stack)-1].Value; top.IsValid() {
+			result = top.Interface()
+		}
 	}
 	v.Stack = v.Stack[0:l]
 	return result, err
@@ -527,7 +532,7 @@ func (v *VM) CallWithArgs(context *Context, c Callable, args []interface{}) (int
 		if err != nil {
 			return nil, err
 		}
-		frames[i].Value = reflect.ValueOf(arg)
+		frames[i].Value = ValueOf(arg)
 		frames[i].Expression = b6.Expression{AnyExpression: literal.AnyLiteral}
 	}
 	return v.CallWithArgsAndExpressions(context, c, frames[0:len(args)])
